@@ -10,6 +10,8 @@
 //   (3) reverse interop: the reference encrypts with reference-chosen nonces (all-00, all-FF, FF..FE, ..FFFFFFFF,
 //       counter) and tink decrypts;
 //   (4) two encryptions never share the nonce ("fresh nonce/salt").
+// Section kms-envelope-odd-kek (oddkek.go): the envelope AEAD over key-encryption AEADs with odd-but-legal answers
+// (results sharing memory with the arguments, cached results, failing calls), see there.
 // Narrow seams (export shim, overlay group c01) are enumerated directly against the reference: polyvalDot,
 // Polyval.Update, the RFC 8452 CTR, deriveKeys, XAES derivePerMessageKey.
 // Fallback (shims do not compile against a refactored tree, see check.sh / Section.Seam): the CTR, deriveKeys and
@@ -609,6 +611,7 @@ func main() {
 	for _, k := range cfgs.Kinds {
 		secs = append(secs, h.Section{Name: names[k], Body: kindSection(k), Bound: -1})
 	}
+	secs = append(secs, h.Section{Name: "kms-envelope-odd-kek", Body: oddKEK, Bound: -1})
 	secs = append(secs,
 		h.Section{Name: "seam-polyval-dot", Body: seamDot, Bound: -1},
 		h.Section{Name: "seam-polyval-update", Body: seamUpdate, Bound: -1},
@@ -616,6 +619,6 @@ func main() {
 		h.Section{Name: "seam-gcmsiv-derivekeys", Body: seamDerive, Bound: -1, Seam: true},
 		h.Section{Name: "seam-xaes-derive", Body: seamXAES, Bound: -1, Seam: true})
 	h.Main("C01", "exploration",
-		"product of (AEAD key type x key/IV/tag/salt sizes x hash x variant x id x construction path; envelope: DEK template x KEK x path) x message domain (every plaintext length 0..64 quick / 0..80 thorough and block/KiB corners up to 65537 x AD nil/empty/lengths, patterns); per message: round trip, nil/empty AD interchange, ciphertext = reference prefix||nonce||body with body byte-identical to the independent reference run on the nonce parsed from tink's output, reference decrypts it; reverse interop for 5 reference-chosen nonces (00.., FF.., FF..FE, ..FFFFFFFF, counter); fresh nonce. Seams enumerated against the bitwise reference: polyvalDot on 128x128 basis pairs, 301^2 weight<=2 lattice pairs, 256^2 dense pairs; Polyval.Update every length; RFC 8452 CTR for wrapping counter words x every length; deriveKeys; XAES derivePerMessageKey. A case is non-trivial when a primitive was built and driven through its message domain; distinct = distinct choice vectors.",
+		"product of (AEAD key type x key/IV/tag/salt sizes x hash x variant x id x construction path; envelope: DEK template x KEK x path) x message domain (every plaintext length 0..64 quick / 0..80 thorough and block/KiB corners up to 65537 x AD nil/empty/lengths, patterns); per message: round trip, nil/empty AD interchange, ciphertext = reference prefix||nonce||body with body byte-identical to the independent reference run on the nonce parsed from tink's output, reference decrypts it; reverse interop for 5 reference-chosen nonces (00.., FF.., FF..FE, ..FFFFFFFF, counter); fresh nonce. Seams enumerated against the bitwise reference: polyvalDot on 128x128 basis pairs, 301^2 weight<=2 lattice pairs, 256^2 dense pairs; Polyval.Update every length; RFC 8452 CTR for wrapping counter words x every length; deriveKeys; XAES derivePerMessageKey. kms-envelope-odd-kek: KEK answer mode (fresh | Encrypt answers in the caller's buffer | Decrypt answers with a sub-slice | Decrypt answers from a cache) x DEK template x KEK keyset x constructor (NewKMSEnvelopeAEAD2 | WithContext) x fault (none | KEK Encrypt #0/#1 | KEK Decrypt #0/#1 fails) x message/AD domain, one envelope object and KEK per run: round trip, documented framing with the encrypted DEK unwrapping under the real KEK key and reference-identical payload, repeated / interleaved decryption of the same buffers, caller's buffers unchanged, an operation fails exactly when its KEK call failed and the next one works. A case is non-trivial when a primitive was built and driven through its message domain; distinct = distinct choice vectors.",
 		secs)
 }
